@@ -12,7 +12,7 @@ class _CircuitFunction(torch.autograd.Function):
         gate_torch = args[:-2]
         q0 = args[-2]
         if isinstance(q0, torch.Tensor):
-            q0 = q0.detach().numpy()
+            q0 = q0.detach().resolve_conj().numpy()
         ind_gate_to_info = args[-1]
         name_list = ind_gate_to_info[-1]
         gate_np_dict = {x:y.detach().numpy() for x,y in zip(name_list, gate_torch)}
@@ -48,7 +48,7 @@ class _CircuitFunction(torch.autograd.Function):
         gate_np_dict = tmp0['gate_np_dict']
         gate_grad_np_dict = {k:np.zeros_like(v) for k,v in gate_np_dict.items()}
         q0_conj = ctx.saved_tensors[0].detach().numpy().conj()
-        q0_grad = grad_output.detach().numpy()
+        q0_grad = grad_output.detach().resolve_conj().numpy() #the cotangent of a loss like sum(psi.conj()*c) carries the conjugate bit
         for ind0 in reversed(range(max(ind_gate_to_info.keys())+1)):
             info = ind_gate_to_info[ind0]
             kind = info['kind']
